@@ -192,6 +192,9 @@ func propC13Limit(c limitCase, o *hx.Obs) *hx.Failure {
 		if f := bestInList(out.Result.BestMove, c.Moves, ctx, "api"); f != nil {
 			return f
 		}
+		if len(legal) > 1 && out.Result.SearchDepth != c.Value {
+			return hx.Failf("C13/depth/iterations-with-searchmoves", "%s: %d iterations completed, want %d (legal root moves %d, searchmoves %v)", ctx, out.Result.SearchDepth, c.Value, len(legal), c.Moves)
+		}
 	case "searchmoves-uci":
 		u := hx.StartUci()
 		defer u.Quit(20 * time.Second)
@@ -306,10 +309,9 @@ func propC13Seq(c limitSeqCase, o *hx.Obs) *hx.Failure {
 		} else if _, ok := rp.FindUCI(hx.FromEngine(out.Result.BestMove).UCI(true)); !ok {
 			return hx.Failf("C13/sequence/illegal-best", "%s: best move %s is not legal", ctx, out.Result.BestMove.StringUci())
 		}
+		// "unless the root is terminal or has a single legal move": a searchmoves list of one move does not make
+		// the root a single-move root - restricting the search to one move is how a move is analysed to a depth
 		roots := len(legal)
-		if len(list) > 0 {
-			roots = len(list)
-		}
 		switch st.Kind {
 		case "depth", "searchmoves", "plain":
 			want := st.Value
@@ -500,6 +502,48 @@ func genSubset(t *rapid.T, p *rc.Pos) []string {
 	return out
 }
 
+// ---- searchmoves with the opening book switched on ---------------------------------------------
+// A time-controlled search in a position the book knows must still answer with one of the listed moves.
+
+type bookMovesCase struct {
+	BookLines []string `json:"book_lines"`  // SAN lines from the start position
+	Moves     []string `json:"searchmoves"` // subset of the legal root moves
+	MoveTime  int      `json:"movetime_ms"`
+}
+
+func propC13BookMoves(c bookMovesCase, o *hx.Obs) *hx.Failure {
+	save := config.Settings
+	defer func() { config.Settings = save }()
+	dir, err := os.MkdirTemp("", "verifc13book")
+	if err != nil {
+		panic(err)
+	}
+	defer os.RemoveAll(dir)
+	if err := os.WriteFile(filepath.Join(dir, "b.san"), []byte(strings.Join(c.BookLines, "\n")+"\n"), 0o644); err != nil {
+		panic(err)
+	}
+	config.Settings.Search.UseBook = true
+	config.Settings.Search.BookPath = dir
+	config.Settings.Search.BookFile = "b.san"
+	config.Settings.Search.BookFormat = "San"
+	rp := rc.MustParse(rc.StartFEN)
+	ep := hx.NewPos(rc.StartFEN)
+	s := search.NewSearch()
+	d := &hx.Driver{}
+	s.SetUciHandler(d)
+	out := hx.RunSearch(s, d, ep, &rp, hx.LimSpec{Mode: "movetime", MoveTime: c.MoveTime, Moves: c.Moves, StopAfterMs: -1, PonderHitAfterMs: -1}, 60*time.Second)
+	o.Evals(1)
+	if out.Hung {
+		return hx.Failf("C13/searchmoves/hang", "search with book and searchmoves %v did not end", c.Moves)
+	}
+	ctx := fmt.Sprintf("start position, book of %d lines, movetime %d ms, searchmoves %v (book move: %v)", len(c.BookLines), c.MoveTime, c.Moves, out.Result.BookMove)
+	if f := bestInList(out.Result.BestMove, c.Moves, ctx, "with-book"); f != nil {
+		return f
+	}
+	o.NT("")
+	return nil
+}
+
 func TestC13(t *testing.T) {
 	r := hx.NewRec(t, "C13")
 	defer r.Finish()
@@ -561,6 +605,12 @@ func TestC13(t *testing.T) {
 		p := genPos(t)
 		return limitCase{Fen: p.FEN(), Kind: "searchmoves", Value: rapid.IntRange(1, 4).Draw(t, "d"), Moves: genSubset(t, &p), Settings: genSettings(t, hx.SearchBoolSwitches(), 60)}
 	}, propC13Limit)
+	hx.Sub(r, "searchmoves-book", r.N(25, 250), func(t *rapid.T) bookMovesCase {
+		lines := []string{"1. e4 e5 2. Nf3 Nc6", "1. d4 d5 2. c4 e6", "1. c4 e5", "1. Nf3 d5", "1. e4 c5"}
+		n := rapid.IntRange(1, len(lines)).Draw(t, "nlines")
+		p := rc.MustParse(rc.StartFEN)
+		return bookMovesCase{BookLines: lines[:n], Moves: genSubset(t, &p), MoveTime: rapid.IntRange(15, 40).Draw(t, "mt")}
+	}, propC13BookMoves)
 	hx.Sub(r, "searchmoves-uci", r.N(40, 400), func(t *rapid.T) limitCase {
 		p := genPos(t)
 		return limitCase{Fen: p.FEN(), Kind: "searchmoves-uci", Value: rapid.IntRange(1, 3).Draw(t, "d"), Moves: genSubset(t, &p)}
